@@ -122,6 +122,17 @@ Theorem C13_impl_eq_spec_partial_old_code : forall (R : cring) (eqb : R -> R -> 
 Proof. intros R eqb Heq U inp m Hm He Hp. split. exact (convert_old_ok R eqb inp He Hp).
   intros t. exact (impl_eq_spec_old R eqb Heq U inp m t Hm He). Qed.
 Print Assumptions C13_impl_eq_spec_partial_old_code.
+(* a photon without P annotation is an H photon: writing {P:H} on every plain photon of any input changes
+   nothing at any stage (conversion outcome and preparation matrix, executed amplitudes, specification) *)
+Theorem C13_plain_photon_is_H : forall (R : cring) (eqb : R -> R -> bool) (inp : ainput R) (U : mat R) m ts,
+  convert eqb (resolve_photons (map (map (spell_H R)) inp)) = convert eqb (resolve_photons inp) /\
+  impl_amps eqb U m (resolve_photons (map (map (spell_H R)) inp)) ts = impl_amps eqb U m (resolve_photons inp) ts /\
+  forall t, spec_amp U m (resolve_photons (map (map (spell_H R)) inp)) t = spec_amp U m (resolve_photons inp) t.
+Proof. exact plain_is_H_everywhere. Qed.
+Print Assumptions C13_plain_photon_is_H.
+Theorem C13_default_vector_is_label_H : forall (R : cring) (ii rh : R), jones_standard ii rh LH = default_jones.
+Proof. exact default_is_H. Qed.
+Print Assumptions C13_default_vector_is_label_H.
 (* one long-lived simulator: over any history of set_circuit / queries (failing queries included), from any state
    of the inner simulator, each query is answered as by a fresh simulator on the circuit set last *)
 Theorem C13_session_history_independent : forall (R : cring) (eqb : R -> R -> bool) (h : list (pop R)) (s : psim R) cur,
